@@ -1,4 +1,6 @@
 import TpmVerif.Model.Tpm12Core
+import TpmVerif.Model.Tpm12Nv
+import TpmVerif.Model.Tpm12Counter
 import TpmVerif.Spec.Tpm12Pcr
 /-!
   C20 — TPM 1.2 core services (PCR extend chain / reset values / locality rules, SHA-1 thread, TIS hash
@@ -464,4 +466,1434 @@ theorem power_on_pcrs (e : Bool) (m : Nat) :
     have : j = 17 ∨ j = 18 ∨ j = 19 ∨ j = 20 ∨ j = 21 ∨ j = 22 := by omega
     rcases this with h | h | h | h | h | h <;> subst h <;> rfl
 
+end TpmVerif.Props.C20
+
+/-!
+  ## NV storage (TPM_NV_DefineSpace / NV_WriteValue / NV_ReadValue (+Auth), TSC_PhysicalPresence, nvLocked, restarts)
+
+  Theorems about `Model.Tpm12.Nv` (the model follows tpm12/tpm_nvram.c, tpm_owner.c:TPM_Process_PhysicalPresence,
+  tpm_permanent.c:TPM_PermanentAll_NVStore, tpm_startup.c).  The state keeps BOTH the in-memory permanent state and
+  the stored one; the theorems about restarts are statements about what `powerCycle` (= TPMLIB_Terminate + TPMLIB_MainInit
+  from the stored blob) brings back.
+-/
+namespace TpmVerif.Props.C20
+namespace NV
+open TpmVerif TpmVerif.Gen.Tpm12 TpmVerif.Model.Tpm12.Nv
+
+/-! ### list lemmas about the area table -/
+
+theorem lookup_setArea (p : Perm) (a : Area) (i : Nat) :
+    lookup (setArea p a) i = if i = a.index then (lookup p i).map (fun _ => a) else lookup p i := by
+  unfold lookup setArea
+  simp only
+  induction p.areas with
+  | nil => by_cases h : i = a.index <;> simp [h, setFirst]
+  | cons b bs ih =>
+    simp only [setFirst]
+    by_cases hb : b.index = a.index
+    · simp only [hb, beq_self_eq_true, if_true, List.find?_cons]
+      by_cases hi : i = a.index
+      · simp [hi]
+      · have : (a.index == i) = false := by simp; exact fun h => hi h.symm
+        simp [this, hi]
+    · have hba : (b.index == a.index) = false := by simpa using hb
+      simp only [hba, Bool.false_eq_true, if_false, List.find?_cons]
+      by_cases hbi : b.index = i
+      · have : i ≠ a.index := fun h => hb (hbi.trans h)
+        simp [hbi, this]
+      · have : (b.index == i) = false := by simpa using hbi
+        simp only [this]
+        exact ih
+
+theorem lookup_remove (p : Perm) (i j : Nat) :
+    lookup (remove p i) j = if j = i then none else lookup p j := by
+  unfold lookup remove
+  simp only
+  induction p.areas with
+  | nil => by_cases h : j = i <;> simp [h]
+  | cons b bs ih =>
+    by_cases hb : b.index = i
+    · have : (b.index != i) = false := by simp [hb]
+      simp only [List.filter_cons, this, Bool.false_eq_true, if_false]
+      rw [ih]
+      by_cases hj : j = i
+      · simp [hj]
+      · have : (b.index == j) = false := by simp [hb]; exact fun h => hj h.symm
+        simp [hj, this]
+    · have : (b.index != i) = true := by simp [hb]
+      simp only [List.filter_cons, this, if_true, List.find?_cons]
+      by_cases hbj : b.index = j
+      · have : j ≠ i := fun h => hb (hbj.trans h)
+        simp [hbj, this]
+      · have : (b.index == j) = false := by simpa using hbj
+        simp only [this]
+        exact ih
+
+theorem lookup_index (p : Perm) (i : Nat) (a : Area) (h : lookup p i = some a) : a.index = i := by
+  unfold lookup at h
+  have := List.find?_some h
+  simpa using this
+
+theorem lookup_mem (p : Perm) (i : Nat) (a : Area) (h : lookup p i = some a) : a ∈ p.areas := by
+  unfold lookup at h
+  exact List.mem_of_find?_eq_some h
+
+theorem lookup_append_new (p : Perm) (a : Area) (j : Nat) (hnew : lookup p a.index = none) :
+    lookup { p with areas := p.areas ++ [a] } j = if j = a.index then some a else lookup p j := by
+  unfold lookup at *
+  simp only [List.find?_append]
+  by_cases hj : j = a.index
+  · subst hj; simp [hnew]
+  · have : (a.index == j) = false := by simp; exact fun h => hj h.symm
+    simp [hj, this]
+
+theorem remove_of_none (p : Perm) (i : Nat) (h : lookup p i = none) : remove p i = p := by
+  unfold lookup at h
+  unfold remove
+  have : p.areas.filter (fun a => a.index != i) = p.areas := by
+    rw [List.filter_eq_self]
+    intro a ha
+    have := List.find?_eq_none.mp h a ha
+    simpa using this
+  rw [this]
+
+/-! ### ordered check lists -/
+
+theorem firstRefusal_ne_zero (l : List (Bool × Nat)) (r : Nat) (hmem : (true, r) ∈ l) (hnz : ∀ e ∈ l, e.2 ≠ 0) :
+    firstRefusal l ≠ 0 := by
+  induction l with
+  | nil => simp at hmem
+  | cons e es ih =>
+    obtain ⟨c, k⟩ := e
+    unfold firstRefusal
+    cases c with
+    | true => simpa using hnz (true, k) (by simp)
+    | false =>
+      simp only [Bool.false_eq_true, if_false]
+      apply ih
+      · rcases List.mem_cons.mp hmem with h | h
+        · simp at h
+        · exact h
+      · intro e he; exact hnz e (by simp [he])
+
+theorem firstRefusal_eq_zero (l : List (Bool × Nat)) (hnz : ∀ e ∈ l, e.2 ≠ 0) (h : firstRefusal l = 0) :
+    ∀ e ∈ l, e.1 = false := by
+  intro e he
+  cases hc : e.1 with
+  | false => rfl
+  | true =>
+    exfalso
+    apply firstRefusal_ne_zero l e.2 _ hnz h
+    have : e = (true, e.2) := by rw [← hc]
+    rw [← this]; exact he
+
+/-- every code in the check lists is an error code -/
+theorem writeChecks_nz (s : St) (tag : Tag) (loc : Nat) (hw : Bool) (a : Area) (off len : Nat) :
+    ∀ e ∈ writeChecks s tag loc hw a off len, e.2 ≠ 0 := by
+  intro e he
+  simp only [writeChecks, List.mem_cons, List.mem_nil_iff, or_false] at he
+  rcases he with h | h | h | h | h | h | h | h | h | h | h | h <;> subst h <;> (dsimp only; decide)
+
+theorem readChecks_nz (s : St) (tag : Tag) (loc : Nat) (hw : Bool) (a : Area) (off n : Nat) :
+    ∀ e ∈ readChecks s tag loc hw a off n, e.2 ≠ 0 := by
+  intro e he
+  simp only [readChecks, List.mem_cons, List.mem_nil_iff, or_false] at he
+  rcases he with h | h | h | h | h | h | h | h <;> subst h <;> (dsimp only; decide)
+
+theorem writeAuthChecks_nz (s : St) (ok : Bool) (loc : Nat) (hw : Bool) (a : Area) (off len : Nat) :
+    ∀ e ∈ writeAuthChecks s ok loc hw a off len, e.2 ≠ 0 := by
+  intro e he
+  simp only [writeAuthChecks, List.mem_cons, List.mem_nil_iff, or_false] at he
+  rcases he with h | h | h | h | h | h | h | h | h <;> subst h <;> (dsimp only; decide)
+
+theorem readAuthChecks_nz (s : St) (ok : Bool) (loc : Nat) (hw : Bool) (a : Area) (off n : Nat) :
+    ∀ e ∈ readAuthChecks s ok loc hw a off n, e.2 ≠ 0 := by
+  intro e he
+  simp only [readAuthChecks, List.mem_cons, List.mem_nil_iff, or_false] at he
+  rcases he with h | h | h | h | h | h <;> subst h <;> (dsimp only; decide)
+
+theorem defineChecks1_nz (s : St) (tag : Tag) (hw : Bool) (idx size : Nat) :
+    ∀ e ∈ defineChecks1 s tag hw idx size, e.2 ≠ 0 := by
+  intro e he
+  simp only [defineChecks1, List.mem_cons, List.mem_nil_iff, or_false] at he
+  rcases he with h | h | h | h | h | h | h | h | h <;> subst h <;> (dsimp only; decide)
+
+theorem defineChecks2_nz (p : Perm) (idx attrs size lr : Nat) :
+    ∀ e ∈ defineChecks2 p idx attrs size lr, e.2 ≠ 0 := by
+  intro e he
+  simp only [defineChecks2, List.mem_cons, List.mem_nil_iff, or_false] at he
+  rcases he with h | h | h | h | h | h | h | h | h <;> subst h <;> (dsimp only; decide)
+
+/-- case analysis over every `if`/`match` of an unfolded model function -/
+macro "nv_auto" : tactic =>
+  `(tactic| ((repeat' split) <;> (try simp) <;> (repeat' split) <;> simp_all))
+
+/-! ### refused commands change nothing -/
+
+/-- **a refused NV_WriteValue has no effect** (whatever the reason: state, index, permission, lock, presence, range) -/
+theorem write_refused_unchanged (s : St) (tag : Tag) (loc : Nat) (hw : Bool) (idx off : Nat) (d : Bytes) :
+    (nvWrite s tag loc hw idx off d).2.rc ≠ 0 → (nvWrite s tag loc hw idx off d).1 = s := by
+  unfold nvWrite; nv_auto
+
+theorem writeAuth_refused_unchanged (s : St) (ok : Bool) (loc : Nat) (hw : Bool) (idx off : Nat) (d : Bytes) :
+    (nvWriteAuth s ok loc hw idx off d).2.rc ≠ 0 → (nvWriteAuth s ok loc hw idx off d).1 = s := by
+  unfold nvWriteAuth; nv_auto
+
+/-- a refused NV_ReadValue has no effect -/
+theorem read_refused_unchanged (s : St) (tag : Tag) (loc : Nat) (hw : Bool) (idx off n : Nat) :
+    (nvRead s tag loc hw idx off n).2.rc ≠ 0 → (nvRead s tag loc hw idx off n).1 = s := by
+  unfold nvRead; nv_auto
+
+/-- a refused TSC_PhysicalPresence has no effect -/
+theorem tscpp_refused_unchanged (s : St) (v : Nat) : (tscPP s v).2.rc ≠ 0 → (tscPP s v).1 = s := by
+  unfold tscPP; nv_auto
+
+/-- the return code of NV_WriteValue to a defined area is the state check, then the first failing permission check -/
+theorem nvWrite_rc_area (s : St) (tag : Tag) (loc : Nat) (hw : Bool) (idx off : Nat) (d : Bytes) (a : Area)
+    (ha : lookup s.mem idx = some a) (h0 : idx ≠ TPM_NV_INDEX0) (hd : idx ≠ TPM_NV_INDEX_DIR) :
+    (nvWrite s tag loc hw idx off d).2.rc =
+      if checkState s ≠ 0 then checkState s else writeRefusal s tag loc hw a off d.length := by
+  unfold nvWrite
+  simp only [h0, hd, ha, if_false]
+  by_cases hc : checkState s = 0
+  · simp only [hc, ne_eq, not_true_eq_false, if_false]
+    by_cases hr : writeRefusal s tag loc hw a off d.length = 0
+    · simp only [hr, not_true_eq_false, if_false]; (repeat' split) <;> rfl
+    · simp [hr]
+  · simp [hc]
+
+theorem nvRead_rc_area (s : St) (tag : Tag) (loc : Nat) (hw : Bool) (idx off n : Nat) (a : Area)
+    (ha : lookup s.mem idx = some a) (hd : idx ≠ TPM_NV_INDEX_DIR) :
+    (nvRead s tag loc hw idx off n).2.rc =
+      if checkState s ≠ 0 then checkState s else readRefusal s tag loc hw a off n := by
+  unfold nvRead
+  simp only [hd, ha, if_false]
+  by_cases hc : checkState s = 0
+  · simp only [hc, ne_eq, not_true_eq_false, if_false]
+    by_cases hr : readRefusal s tag loc hw a off n = 0
+    · simp only [hr, not_true_eq_false, if_false]; (repeat' split) <;> rfl
+    · simp [hr]
+  · simp [hc]
+
+theorem nvWriteAuth_rc_area (s : St) (ok : Bool) (loc : Nat) (hw : Bool) (idx off : Nat) (d : Bytes) (a : Area)
+    (ha : lookup s.mem idx = some a) :
+    (nvWriteAuth s ok loc hw idx off d).2.rc =
+      if checkStateOwner s ≠ 0 then checkStateOwner s else writeAuthRefusal s ok loc hw a off d.length := by
+  unfold nvWriteAuth
+  simp only [ha]
+  by_cases hc : checkStateOwner s = 0
+  · simp only [hc, ne_eq, not_true_eq_false, if_false]
+    by_cases hr : writeAuthRefusal s ok loc hw a off d.length = 0
+    · simp only [hr, not_true_eq_false, if_false]; (repeat' split) <;> rfl
+    · simp [hr]
+  · simp [hc]
+
+/-- a command whose own check list refuses it is refused (the state check can only refuse it earlier) -/
+theorem rc_ne_zero_of_refusal (cs r : Nat) (hr : r ≠ 0) : (if cs ≠ 0 then cs else r) ≠ 0 := by
+  by_cases h : cs = 0 <;> simp [h, hr]
+
+/-! ### locks -/
+
+/-- the three write locks, as the write commands test them (only while nvLocked is TRUE for NV_WriteValue) -/
+def WriteLocked (s : St) (a : Area) : Prop :=
+  (has a.attrs TPM_NV_PER_WRITEDEFINE = true ∧ a.writeDef = true) ∨
+  (has a.attrs TPM_NV_PER_GLOBALLOCK = true ∧ s.globalLock = true) ∨
+  (has a.attrs TPM_NV_PER_WRITE_STCLEAR = true ∧ a.writeSt = true)
+
+theorem writeRefusal_locked (s : St) (tag : Tag) (loc : Nat) (hw : Bool) (a : Area) (off len : Nat)
+    (hl : s.mem.nvLocked = true) (hk : WriteLocked s a) : writeRefusal s tag loc hw a off len ≠ 0 := by
+  apply firstRefusal_ne_zero _ TPM_AREA_LOCKED _ (writeChecks_nz s tag loc hw a off len)
+  simp only [writeChecks, hl]
+  rcases hk with ⟨h1, h2⟩ | ⟨h1, h2⟩ | ⟨h1, h2⟩ <;> simp [h1, h2]
+
+/-- **a locked area refuses writes** (TPM_NV_PER_WRITEDEFINE after a size-0 write, TPM_NV_PER_GLOBALLOCK after a write to
+    index 0, TPM_NV_PER_WRITE_STCLEAR after a size-0 write): with nvLocked TRUE every NV_WriteValue to it — any tag,
+    any locality, any offset and data, physical presence or not — is refused and nothing changes -/
+theorem locked_area_refuses_write (s : St) (tag : Tag) (loc : Nat) (hw : Bool) (idx off : Nat) (d : Bytes) (a : Area)
+    (hl : s.mem.nvLocked = true) (ha : lookup s.mem idx = some a) (h0 : idx ≠ TPM_NV_INDEX0) (hd : idx ≠ TPM_NV_INDEX_DIR)
+    (hk : WriteLocked s a) :
+    (nvWrite s tag loc hw idx off d).2.rc ≠ 0 ∧ (nvWrite s tag loc hw idx off d).1 = s := by
+  have h : (nvWrite s tag loc hw idx off d).2.rc ≠ 0 := by
+    rw [nvWrite_rc_area s tag loc hw idx off d a ha h0 hd]
+    exact rc_ne_zero_of_refusal _ _ (writeRefusal_locked s tag loc hw a off d.length hl hk)
+  exact ⟨h, write_refused_unchanged _ _ _ _ _ _ _ h⟩
+
+/-- ... and NV_WriteValueAuth too, whatever nvLocked says -/
+theorem locked_area_refuses_writeAuth (s : St) (ok : Bool) (loc : Nat) (hw : Bool) (idx off : Nat) (d : Bytes) (a : Area)
+    (ha : lookup s.mem idx = some a) (hk : WriteLocked s a) :
+    (nvWriteAuth s ok loc hw idx off d).2.rc ≠ 0 ∧ (nvWriteAuth s ok loc hw idx off d).1 = s := by
+  have h : (nvWriteAuth s ok loc hw idx off d).2.rc ≠ 0 := by
+    rw [nvWriteAuth_rc_area s ok loc hw idx off d a ha]
+    apply rc_ne_zero_of_refusal
+    apply firstRefusal_ne_zero _ TPM_AREA_LOCKED _ (writeAuthChecks_nz s ok loc hw a off d.length)
+    simp only [writeAuthChecks]
+    rcases hk with ⟨h1, h2⟩ | ⟨h1, h2⟩ | ⟨h1, h2⟩ <;> simp [h1, h2]
+  exact ⟨h, writeAuth_refused_unchanged _ _ _ _ _ _ _ h⟩
+
+/-- **a read-locked area refuses reads**: TPM_NV_PER_READ_STCLEAR after a size-0 read, with nvLocked TRUE -/
+theorem readlocked_area_refuses (s : St) (tag : Tag) (loc : Nat) (hw : Bool) (idx off n : Nat) (a : Area)
+    (hl : s.mem.nvLocked = true) (ha : lookup s.mem idx = some a) (hd : idx ≠ TPM_NV_INDEX_DIR)
+    (h1 : has a.attrs TPM_NV_PER_READ_STCLEAR = true) (h2 : a.readSt = true) :
+    (nvRead s tag loc hw idx off n).2.rc ≠ 0 ∧ (nvRead s tag loc hw idx off n).1 = s := by
+  have h : (nvRead s tag loc hw idx off n).2.rc ≠ 0 := by
+    rw [nvRead_rc_area s tag loc hw idx off n a ha hd]
+    apply rc_ne_zero_of_refusal
+    apply firstRefusal_ne_zero _ TPM_DISABLED_CMD _ (readChecks_nz s tag loc hw a off n)
+    simp [readChecks, hl, h1, h2]
+  exact ⟨h, read_refused_unchanged _ _ _ _ _ _ _ h⟩
+
+/-- **the physical-presence bits are enforced**: with nvLocked TRUE an area with TPM_NV_PER_PPWRITE is not written
+    without physical presence (command-asserted while command presence is enabled, or the hardware signal while hardware
+    presence is enabled) -/
+theorem ppwrite_needs_presence (s : St) (tag : Tag) (loc : Nat) (hw : Bool) (idx off : Nat) (d : Bytes) (a : Area)
+    (hl : s.mem.nvLocked = true) (ha : lookup s.mem idx = some a) (h0 : idx ≠ TPM_NV_INDEX0) (hd : idx ≠ TPM_NV_INDEX_DIR)
+    (h1 : has a.attrs TPM_NV_PER_PPWRITE = true) (h2 : presence s hw = false) :
+    (nvWrite s tag loc hw idx off d).2.rc ≠ 0 ∧ (nvWrite s tag loc hw idx off d).1 = s := by
+  have h : (nvWrite s tag loc hw idx off d).2.rc ≠ 0 := by
+    rw [nvWrite_rc_area s tag loc hw idx off d a ha h0 hd]
+    apply rc_ne_zero_of_refusal
+    apply firstRefusal_ne_zero _ TPM_BAD_PRESENCE _ (writeChecks_nz s tag loc hw a off d.length)
+    simp [writeChecks, hl, h1, h2]
+  exact ⟨h, write_refused_unchanged _ _ _ _ _ _ _ h⟩
+
+theorem ppread_needs_presence (s : St) (tag : Tag) (loc : Nat) (hw : Bool) (idx off n : Nat) (a : Area)
+    (hl : s.mem.nvLocked = true) (ha : lookup s.mem idx = some a) (hd : idx ≠ TPM_NV_INDEX_DIR)
+    (h1 : has a.attrs TPM_NV_PER_PPREAD = true) (h2 : presence s hw = false) :
+    (nvRead s tag loc hw idx off n).2.rc ≠ 0 := by
+  rw [nvRead_rc_area s tag loc hw idx off n a ha hd]
+  apply rc_ne_zero_of_refusal
+  apply firstRefusal_ne_zero _ TPM_BAD_PRESENCE _ (readChecks_nz s tag loc hw a off n)
+  simp [readChecks, hl, h1, h2]
+
+/-- owner-write areas are not written without owner authorization once nvLocked is set; area-authorized areas never by
+    NV_WriteValue; and **a wrong HMAC never writes** -/
+theorem owner_area_needs_owner_auth (s : St) (loc : Nat) (hw : Bool) (idx off : Nat) (d : Bytes) (a : Area)
+    (ha : lookup s.mem idx = some a) (h0 : idx ≠ TPM_NV_INDEX0) (hd : idx ≠ TPM_NV_INDEX_DIR)
+    (h1 : (s.mem.nvLocked = true ∧ has a.attrs TPM_NV_PER_OWNERWRITE = true) ∨ has a.attrs TPM_NV_PER_AUTHWRITE = true) :
+    (nvWrite s .rqu loc hw idx off d).2.rc ≠ 0 := by
+  rw [nvWrite_rc_area s .rqu loc hw idx off d a ha h0 hd]
+  apply rc_ne_zero_of_refusal
+  apply firstRefusal_ne_zero _ TPM_AUTH_CONFLICT _ (writeChecks_nz s .rqu loc hw a off d.length)
+  rcases h1 with ⟨hl, h1⟩ | h1 <;> simp [writeChecks, Tag.isRqu, *]
+
+theorem bad_hmac_never_writes (s : St) (loc : Nat) (hw : Bool) (idx off : Nat) (d : Bytes) :
+    (nvWrite s (.auth1 false) loc hw idx off d).2.rc ≠ 0 ∧ (nvWrite s (.auth1 false) loc hw idx off d).1 = s := by
+  have h : (nvWrite s (.auth1 false) loc hw idx off d).2.rc ≠ 0 := by
+    by_cases h0 : idx = TPM_NV_INDEX0
+    · unfold nvWrite; simp only [h0, Tag.authBad, if_true]
+      by_cases hc : checkState s = 0 <;> simp [hc, TPM_AUTHFAIL]
+    by_cases hd : idx = TPM_NV_INDEX_DIR
+    · unfold nvWrite writeRefusalDir firstRefusal
+      simp only [hd, Tag.authBad, if_true]
+      by_cases hc : checkState s = 0 <;> simp [hc, TPM_AUTHFAIL, TPM_NV_INDEX_DIR, TPM_NV_INDEX0]
+    cases ha : lookup s.mem idx with
+    | none =>
+      unfold nvWrite; simp only [h0, hd, ha, if_false]
+      by_cases hc : checkState s = 0 <;> simp [hc, TPM_BADINDEX]
+    | some a =>
+      rw [nvWrite_rc_area s _ loc hw idx off d a ha h0 hd]
+      apply rc_ne_zero_of_refusal
+      cases hown : has a.attrs TPM_NV_PER_OWNERWRITE
+      · apply firstRefusal_ne_zero _ TPM_AUTH_CONFLICT _ (writeChecks_nz s _ loc hw a off d.length)
+        simp [writeChecks, Tag.isRqu, hown]
+      · apply firstRefusal_ne_zero _ TPM_AUTHFAIL _ (writeChecks_nz s _ loc hw a off d.length)
+        simp [writeChecks, Tag.authBad]
+  exact ⟨h, write_refused_unchanged _ _ _ _ _ _ _ h⟩
+
+
+/-! ### contents: read-after-write, frame -/
+
+theorem patch_length (d w : Bytes) (off : Nat) (h : off + w.length ≤ d.length) : (patch d off w).length = d.length := by
+  simp [patch]; omega
+
+theorem slice_patch_same (d w : Bytes) (off : Nat) (h : off + w.length ≤ d.length) : slice (patch d off w) off w.length = w := by
+  unfold slice patch
+  have h1 : (d.take off).length = off := by simp; omega
+  rw [List.append_assoc, List.drop_left' h1, List.take_left' rfl]
+
+/-- bytes outside the written range are not touched -/
+theorem patch_outside (d w : Bytes) (off i : Nat) (h : off + w.length ≤ d.length) (hi : i < off ∨ off + w.length ≤ i) :
+    (patch d off w)[i]? = d[i]? := by
+  unfold patch
+  rcases hi with hi | hi
+  · rw [List.append_assoc, List.getElem?_append_left (by simp; omega)]
+    simp [hi]
+  · have h1 : (d.take off ++ w).length = off + w.length := by simp; omega
+    rw [List.getElem?_append_right (by omega), h1]
+    simp; congr 1; omega
+
+/-- what a successful NV_WriteValue of a non-empty byte string to a defined area does to the in-memory area table:
+    the area is replaced by one that holds `d` at `off` (same index, attributes, size, locks) -/
+theorem nvWrite_ok_mem (s : St) (tag : Tag) (loc : Nat) (hw : Bool) (idx off : Nat) (d : Bytes)
+    (hwf : ∀ a ∈ s.mem.areas, a.data.length = a.size)
+    (hne : d.length ≠ 0) (h0 : idx ≠ TPM_NV_INDEX0) (hd : idx ≠ TPM_NV_INDEX_DIR)
+    (hok : (nvWrite s tag loc hw idx off d).2.rc = 0) :
+    ∃ a a', lookup s.mem idx = some a ∧ off + d.length ≤ a.size ∧ checkState s = 0 ∧
+      a'.index = a.index ∧ slice a'.data off d.length = d ∧ a'.data.length = a.data.length ∧
+      (∀ i, i < off ∨ off + d.length ≤ i → a'.data[i]? = a.data[i]?) ∧
+      (nvWrite s tag loc hw idx off d).1.mem.areas = (setArea s.mem a').areas := by
+  cases ha : lookup s.mem idx with
+  | none =>
+    exfalso; revert hok; unfold nvWrite; simp only [h0, hd, ha, if_false]
+    by_cases hc : checkState s = 0 <;> simp [hc, TPM_BADINDEX]
+  | some a =>
+    have hrc := nvWrite_rc_area s tag loc hw idx off d a ha h0 hd
+    rw [hok] at hrc
+    have hc : checkState s = 0 := by
+      by_cases hc : checkState s = 0
+      · exact hc
+      · simp [hc] at hrc; exact absurd hrc.symm hc
+    have hr : writeRefusal s tag loc hw a off d.length = 0 := by simp [hc] at hrc; exact hrc.symm
+    have hall := firstRefusal_eq_zero _ (writeChecks_nz s tag loc hw a off d.length) hr
+    have hsp := hall (d.length != 0 && (decide (off + d.length ≥ M32) || decide (off + d.length > a.size)), TPM_NOSPACE)
+      (by simp [writeChecks])
+    have hbound : off + d.length ≤ a.size := by
+      simp only [Bool.and_eq_false_imp, bne_iff_ne, ne_eq, Bool.or_eq_false_iff, decide_eq_false_iff_not] at hsp
+      have := (hsp hne).2; omega
+    have hlen : a.data.length = a.size := hwf a (lookup_mem _ _ _ ha)
+    by_cases hsame : slice a.data off d.length = d
+    · refine ⟨a, { a with readSt := false }, rfl, hbound, hc, rfl, hsame, rfl, fun _ _ => rfl, ?_⟩
+      unfold nvWrite
+      simp only [h0, hd, ha, hc, hr, hne, hsame, ne_eq, not_true_eq_false, if_false, if_true]
+    · refine ⟨a, { a with data := patch a.data off d, readSt := false }, rfl, hbound, hc, rfl,
+        slice_patch_same _ _ _ (by omega), patch_length _ _ _ (by omega), fun i hi => patch_outside _ _ _ _ (by omega) hi, ?_⟩
+      unfold nvWrite
+      simp only [h0, hd, ha, hc, hr, hne, hsame, ne_eq, not_true_eq_false, if_false, store, bump]
+      split <;> rfl
+
+def WF (s : St) : Prop := ∀ a ∈ s.mem.areas, a.data.length = a.size
+
+theorem lookup_areas_congr (p q : Perm) (h : p.areas = q.areas) (i : Nat) : lookup p i = lookup q i := by
+  unfold lookup; rw [h]
+
+/-- **read-after-write**: after a successful NV_WriteValue of the bytes `d` at `off`, a successful NV_ReadValue of the
+    same range — with any tag, locality, presence — returns exactly `d` -/
+theorem read_after_write (s : St) (tag tag' : Tag) (loc loc' : Nat) (hw hw' : Bool) (idx off : Nat) (d : Bytes) (hwf : WF s)
+    (hne : d.length ≠ 0) (h0 : idx ≠ TPM_NV_INDEX0) (hd : idx ≠ TPM_NV_INDEX_DIR)
+    (hok : (nvWrite s tag loc hw idx off d).2.rc = 0)
+    (hrd : (nvRead (nvWrite s tag loc hw idx off d).1 tag' loc' hw' idx off d.length).2.rc = 0) :
+    (nvRead (nvWrite s tag loc hw idx off d).1 tag' loc' hw' idx off d.length).2.out = be32 d.length ++ d := by
+  obtain ⟨a, a', ha, hb, _, hi, hsl, _, _, hm⟩ := nvWrite_ok_mem s tag loc hw idx off d hwf hne h0 hd hok
+  have hlk : lookup (nvWrite s tag loc hw idx off d).1.mem idx = some a' := by
+    rw [lookup_areas_congr _ _ hm, lookup_setArea]
+    have hidx : a.index = idx := lookup_index _ _ _ ha
+    simp only [hi, hidx, if_true, ha, Option.map_some]
+  revert hrd
+  unfold nvRead
+  simp only [hd, hlk, if_false]
+  repeat' split
+  all_goals simp_all
+
+/-- ... and the bytes of the area outside the written range are the ones that were there before -/
+theorem write_touches_only_range (s : St) (tag : Tag) (loc : Nat) (hw : Bool) (idx off : Nat) (d : Bytes) (hwf : WF s)
+    (hne : d.length ≠ 0) (h0 : idx ≠ TPM_NV_INDEX0) (hd : idx ≠ TPM_NV_INDEX_DIR)
+    (hok : (nvWrite s tag loc hw idx off d).2.rc = 0) :
+    ∃ a a', lookup s.mem idx = some a ∧ lookup (nvWrite s tag loc hw idx off d).1.mem idx = some a' ∧
+      a'.data.length = a.data.length ∧ ∀ i, i < off ∨ off + d.length ≤ i → a'.data[i]? = a.data[i]? := by
+  obtain ⟨a, a', ha, _, _, hi, _, hl, hout, hm⟩ := nvWrite_ok_mem s tag loc hw idx off d hwf hne h0 hd hok
+  refine ⟨a, a', ha, ?_, hl, hout⟩
+  rw [lookup_areas_congr _ _ hm, lookup_setArea]
+  have hidx : a.index = idx := lookup_index _ _ _ ha
+  simp only [hi, hidx, if_true, ha, Option.map_some]
+
+@[simp] theorem bump_areas (p : Perm) (tag : Tag) : (bump p tag).areas = p.areas := by
+  unfold bump; split <;> rfl
+@[simp] theorem store_mem (s : St) : (store s).mem = s.mem := rfl
+
+/-- the area table after any NV_WriteValue: untouched, or one area replaced by an area with the same index -/
+theorem nvWrite_areas (s : St) (tag : Tag) (loc : Nat) (hw : Bool) (idx off : Nat) (d : Bytes) :
+    (nvWrite s tag loc hw idx off d).1.mem.areas = s.mem.areas ∨
+    ∃ a a', lookup s.mem idx = some a ∧ a'.index = a.index ∧
+      (nvWrite s tag loc hw idx off d).1.mem.areas = (setArea s.mem a').areas := by
+  unfold nvWrite
+  by_cases hc : checkState s = 0
+  case neg => left; simp [hc]
+  simp only [hc, ne_eq, not_true_eq_false, if_false]
+  by_cases h0 : idx = TPM_NV_INDEX0
+  · left; simp only [h0, if_true]; (repeat' split) <;> rfl
+  simp only [h0, if_false]
+  by_cases hd : idx = TPM_NV_INDEX_DIR
+  · left; simp only [hd, if_true]; (repeat' split) <;> simp
+  simp only [hd, if_false]
+  cases ha : lookup s.mem idx with
+  | none => left; rfl
+  | some a =>
+    simp only []
+    by_cases hr : writeRefusal s tag loc hw a off d.length = 0
+    case neg => left; simp [hr]
+    simp only [hr, not_true_eq_false, if_false]
+    right
+    by_cases hl : d.length = 0
+    · simp only [hl, if_true]
+      refine ⟨a, { a with writeSt := true, writeDef := true, readSt := false }, rfl, rfl, ?_⟩
+      split <;> simp
+    · simp only [hl, if_false]
+      by_cases hsame : slice a.data off d.length = d
+      · simp only [hsame, if_true]; exact ⟨a, { a with readSt := false }, rfl, rfl, rfl⟩
+      · simp only [hsame, if_false]
+        exact ⟨a, { a with data := patch a.data off d, readSt := false }, rfl, rfl, by simp⟩
+
+/-- **frame**: a write to one area never changes another area (contents, attributes, flags) -/
+theorem write_frame (s : St) (tag : Tag) (loc : Nat) (hw : Bool) (idx off : Nat) (d : Bytes) (j : Nat) (hj : j ≠ idx) :
+    lookup (nvWrite s tag loc hw idx off d).1.mem j = lookup s.mem j := by
+  rcases nvWrite_areas s tag loc hw idx off d with h | ⟨a, a', ha, hi, h⟩
+  · exact lookup_areas_congr _ _ h j
+  · rw [lookup_areas_congr _ _ h j, lookup_setArea]
+    have : j ≠ a'.index := by rw [hi, lookup_index _ _ _ ha]; exact hj
+    simp [this]
+
+/-- the area table after any NV_ReadValue: untouched, or bReadSTClear of the area read was set (size-0 read) -/
+theorem nvRead_areas (s : St) (tag : Tag) (loc : Nat) (hw : Bool) (idx off n : Nat) :
+    (nvRead s tag loc hw idx off n).1.mem.areas = s.mem.areas ∨
+    ∃ a, lookup s.mem idx = some a ∧ (nvRead s tag loc hw idx off n).1.mem.areas = (setArea s.mem { a with readSt := true }).areas := by
+  unfold nvRead
+  by_cases hc : checkState s = 0
+  case neg => left; simp [hc]
+  simp only [hc, ne_eq, not_true_eq_false, if_false]
+  by_cases hd : idx = TPM_NV_INDEX_DIR
+  · left; simp only [hd, if_true]; (repeat' split) <;> rfl
+  simp only [hd, if_false]
+  cases ha : lookup s.mem idx with
+  | none => left; rfl
+  | some a =>
+    simp only []
+    by_cases hr : readRefusal s tag loc hw a off n = 0
+    case neg => left; simp [hr]
+    simp only [hr, not_true_eq_false, if_false]
+    by_cases hn : n = 0
+    · right; simp only [hn, if_true]; exact ⟨a, rfl, rfl⟩
+    · left; simp [hn]
+
+/-- a read changes no other area -/
+theorem read_frame (s : St) (tag : Tag) (loc : Nat) (hw : Bool) (idx off n : Nat) (j : Nat) (hj : j ≠ idx) :
+    lookup (nvRead s tag loc hw idx off n).1.mem j = lookup s.mem j := by
+  rcases nvRead_areas s tag loc hw idx off n with h | ⟨a, ha, h⟩
+  · exact lookup_areas_congr _ _ h j
+  · rw [lookup_areas_congr _ _ h j, lookup_setArea]
+    have : j ≠ a.index := by rw [lookup_index _ _ _ ha]; exact hj
+    simp [this]
+
+/-- a read never changes the contents, attributes, size or write locks of any area (only bReadSTClear of the area read) -/
+theorem read_keeps_data (s : St) (tag : Tag) (loc : Nat) (hw : Bool) (idx off n : Nat) (j : Nat) :
+    (lookup (nvRead s tag loc hw idx off n).1.mem j).map (fun a => (a.data, a.attrs, a.size, a.writeSt, a.writeDef)) =
+    (lookup s.mem j).map (fun a => (a.data, a.attrs, a.size, a.writeSt, a.writeDef)) := by
+  rcases nvRead_areas s tag loc hw idx off n with h | ⟨a, ha, h⟩
+  · rw [lookup_areas_congr _ _ h j]
+  · rw [lookup_areas_congr _ _ h j, lookup_setArea]
+    by_cases hj : j = a.index
+    · have hji : j = idx := by rw [hj, lookup_index _ _ _ ha]
+      subst hji; simp [← hj, ha]
+    · simp [hj]
+
+
+/-! ### what a power cycle brings back: the invariant "memory = storage except for the volatile per-area flags" -/
+
+/-- an area without its two volatile flags -/
+def core (a : Area) : Area := { a with readSt := false, writeSt := false }
+
+/-- the in-memory permanent state and the stored one agree on everything a power cycle must preserve: the areas (index,
+    attributes, size, localities, contents, bWriteDefine), nvLocked, the DIR, the physical-presence enables, the owner -/
+def Agree (s : St) : Prop :=
+  s.mem.areas.map core = s.sto.areas.map core ∧ s.mem.nvLocked = s.sto.nvLocked ∧ s.mem.dir = s.sto.dir ∧
+  s.mem.ppCmd = s.sto.ppCmd ∧ s.mem.ppHw = s.sto.ppHw ∧ s.mem.ppLife = s.sto.ppLife ∧
+  s.mem.ownerInstalled = s.sto.ownerInstalled
+
+theorem agree_fresh : Agree fresh := by simp [Agree, fresh]
+
+theorem agree_of_eq (s : St) (h : s.mem = s.sto) : Agree s := by simp [Agree, h]
+
+theorem agree_store (s : St) : Agree (store s) := agree_of_eq _ rfl
+
+/-- changing only volatile things in memory (per-area flags, noOwnerNVWrite in the TPM_NV_INDEX_TRIAL case) keeps the agreement -/
+theorem agree_congr (s s' : St) (h : Agree s) (hs : s'.sto = s.sto) (ha : s'.mem.areas.map core = s.mem.areas.map core)
+    (h1 : s'.mem.nvLocked = s.mem.nvLocked) (h2 : s'.mem.dir = s.mem.dir) (h3 : s'.mem.ppCmd = s.mem.ppCmd)
+    (h4 : s'.mem.ppHw = s.mem.ppHw) (h5 : s'.mem.ppLife = s.mem.ppLife) (h6 : s'.mem.ownerInstalled = s.mem.ownerInstalled) :
+    Agree s' := by
+  unfold Agree at *
+  rw [hs, ha, h1, h2, h3, h4, h5, h6]; exact h
+
+theorem map_core_setFirst (l : List Area) (a a' : Area) (hf : l.find? (·.index == a'.index) = some a) (hc : core a' = core a) :
+    (setFirst l a').map core = l.map core := by
+  induction l with
+  | nil => simp at hf
+  | cons b bs ih =>
+    simp only [setFirst]
+    by_cases hb : (b.index == a'.index) = true
+    · simp only [hb, if_true, List.map_cons]
+      simp only [List.find?_cons, hb] at hf
+      have : b = a := by simpa using hf
+      rw [hc, this]
+    · simp only [hb, Bool.false_eq_true, if_false, List.map_cons]
+      simp only [List.find?_cons] at hf
+      have hb' : (b.index == a'.index) = false := by simpa using hb
+      rw [hb'] at hf
+      rw [ih hf]
+
+theorem map_core_setArea (p : Perm) (a a' : Area) (hf : lookup p a'.index = some a) (hc : core a' = core a) :
+    (setArea p a').areas.map core = p.areas.map core := map_core_setFirst _ _ _ hf hc
+
+theorem lookup_map_core (p q : Perm) (h : p.areas.map core = q.areas.map core) (i : Nat) :
+    (lookup p i).map core = (lookup q i).map core := by
+  unfold lookup
+  have e : ∀ l : List Area, (l.find? (·.index == i)).map core = (l.map core).find? (·.index == i) := by
+    intro l; rw [List.find?_map]; rfl
+  rw [e, e, h]
+
+
+theorem agree_setArea (s : St) (a a' : Area) (h : Agree s) (hf : lookup s.mem a'.index = some a) (hc : core a' = core a) :
+    Agree { s with mem := setArea s.mem a' } :=
+  agree_congr s _ h rfl (map_core_setArea _ _ _ hf hc) rfl rfl rfl rfl rfl rfl
+
+theorem agree_nvRead (s : St) (tag : Tag) (loc : Nat) (hw : Bool) (idx off n : Nat) (h : Agree s) :
+    Agree (nvRead s tag loc hw idx off n).1 := by
+  unfold nvRead
+  by_cases hc : checkState s = 0
+  case neg => simpa [hc] using h
+  simp only [hc, ne_eq, not_true_eq_false, if_false]
+  by_cases hd : idx = TPM_NV_INDEX_DIR
+  · simp only [hd, if_true]; (repeat' split) <;> exact h
+  simp only [hd, if_false]
+  cases ha : lookup s.mem idx with
+  | none => exact h
+  | some a =>
+    simp only []
+    (repeat' split) <;> first | exact h | skip
+    exact agree_setArea s a _ h (by rw [show ({ a with readSt := true } : Area).index = a.index from rfl, lookup_index _ _ _ ha]; exact ha) rfl
+
+theorem agree_nvReadAuth (s : St) (ok : Bool) (loc : Nat) (hw : Bool) (idx off n : Nat) (h : Agree s) :
+    Agree (nvReadAuth s ok loc hw idx off n).1 := by
+  unfold nvReadAuth
+  by_cases hc : checkStateOwner s = 0
+  case neg => simpa [hc] using h
+  simp only [hc, ne_eq, not_true_eq_false, if_false]
+  cases ha : lookup s.mem idx with
+  | none => exact h
+  | some a =>
+    simp only []
+    (repeat' split) <;> first | exact h | skip
+    exact agree_setArea s a _ h (by rw [show ({ a with readSt := true } : Area).index = a.index from rfl, lookup_index _ _ _ ha]; exact ha) rfl
+
+theorem agree_nvWrite (s : St) (tag : Tag) (loc : Nat) (hw : Bool) (idx off : Nat) (d : Bytes) (h : Agree s) :
+    Agree (nvWrite s tag loc hw idx off d).1 := by
+  unfold nvWrite
+  by_cases hc : checkState s = 0
+  case neg => simpa [hc] using h
+  simp only [hc, ne_eq, not_true_eq_false, if_false]
+  by_cases h0 : idx = TPM_NV_INDEX0
+  · simp only [h0, if_true]; (repeat' split) <;> first | exact h | exact agree_congr s _ h rfl rfl rfl rfl rfl rfl rfl rfl
+  simp only [h0, if_false]
+  by_cases hd : idx = TPM_NV_INDEX_DIR
+  · simp only [hd, if_true]; (repeat' split) <;> first | exact h | exact agree_store _
+  simp only [hd, if_false]
+  cases ha : lookup s.mem idx with
+  | none => exact h
+  | some a =>
+    have hidx : a.index = idx := lookup_index _ _ _ ha
+    simp only []
+    (repeat' split) <;> first | exact h | exact agree_store _ | skip
+    · rename_i hwd
+      exact agree_setArea s a _ h (by show lookup s.mem a.index = some a; rw [hidx]; exact ha) (by simp [core, hwd])
+    · exact agree_setArea s a _ h (by show lookup s.mem a.index = some a; rw [hidx]; exact ha) rfl
+
+theorem agree_nvWriteAuth (s : St) (ok : Bool) (loc : Nat) (hw : Bool) (idx off : Nat) (d : Bytes) (h : Agree s) :
+    Agree (nvWriteAuth s ok loc hw idx off d).1 := by
+  unfold nvWriteAuth
+  by_cases hc : checkStateOwner s = 0
+  case neg => simpa [hc] using h
+  simp only [hc, ne_eq, not_true_eq_false, if_false]
+  cases ha : lookup s.mem idx with
+  | none => exact h
+  | some a =>
+    have hidx : a.index = idx := lookup_index _ _ _ ha
+    simp only []
+    (repeat' split) <;> first | exact h | exact agree_store _ | skip
+    · rename_i hwd
+      exact agree_setArea s a _ h (by show lookup s.mem a.index = some a; rw [hidx]; exact ha) (by simp [core, hwd])
+    · exact agree_setArea s a _ h (by show lookup s.mem a.index = some a; rw [hidx]; exact ha) rfl
+
+theorem agree_tscPP (s : St) (v : Nat) (h : Agree s) : Agree (tscPP s v).1 := by
+  unfold tscPP
+  by_cases hc : checkState s = 0
+  case neg => simpa [hc] using h
+  simp only [hc, ne_eq, not_true_eq_false, if_false]
+  (repeat' split) <;> first | exact h | exact agree_store _ | exact agree_congr s _ h rfl rfl rfl rfl rfl rfl rfl rfl
+
+theorem agree_rollback (s : St) : Agree (rollback s) := by
+  unfold rollback Agree
+  refine ⟨?_, rfl, rfl, rfl, rfl, rfl, rfl⟩
+  simp only [List.map_map]
+  apply List.map_congr_left
+  intro a _
+  simp only [Function.comp]
+  split <;> rfl
+
+theorem agree_nvStore (s : St) (w : Bool) (rc : Nat) (h : Agree s) : Agree (nvStore s w rc) := by
+  unfold nvStore
+  (repeat' split) <;> first | exact h | exact agree_store _ | exact agree_rollback _
+
+theorem agree_nvDefine (s : St) (tag : Tag) (hw : Bool) (idx attrs size lr lw : Nat) (h : Agree s) :
+    Agree (nvDefine s tag hw idx attrs size lr lw).1 := by
+  unfold nvDefine
+  by_cases hl : (!legalLoc lr || !legalLoc lw) = true
+  · simpa [hl] using h
+  simp only [hl, Bool.false_eq_true, if_false]
+  by_cases hc : checkState s = 0
+  case neg => simpa [hc] using h
+  simp only [hc, ne_eq, not_true_eq_false, if_false]
+  by_cases hk : (decide (idx = TPM_NV_INDEX_LOCK) && tag.isRqu) = true
+  · simp only [hk, if_true]; (repeat' split) <;> first | exact h | exact agree_store _
+  simp only [hk, Bool.false_eq_true, if_false]
+  by_cases h1 : defineRefusal1 s tag hw idx size = 0
+  case neg => simpa [h1] using h
+  simp only [h1, not_true_eq_false, if_false]
+  cases hold : lookup s.mem idx with
+  | some old =>
+    simp only [Option.isSome_some, Bool.true_and]
+    (repeat' split) <;> first | exact agree_store _ | exact agree_nvStore _ _ _ (agree_store _) | skip
+    all_goals simp only [nvStore, if_true]
+    all_goals (repeat' split) <;> first | exact agree_store _ | exact agree_rollback _
+  | none =>
+    have hrem : remove s.mem idx = s.mem := remove_of_none _ _ hold
+    simp only [Option.isSome_none, Bool.false_and, Bool.false_eq_true, if_false, hrem]
+    (repeat' split) <;> first | exact agree_store _ | skip
+    · simpa [nvStore] using h
+    · simp only [nvStore, Bool.false_eq_true, if_false]
+      exact agree_congr s _ h rfl (by simp) (by unfold bump; split <;> rfl) (by unfold bump; split <;> rfl)
+        (by unfold bump; split <;> rfl) (by unfold bump; split <;> rfl) (by unfold bump; split <;> rfl) (by unfold bump; split <;> rfl)
+
+
+theorem map_core_applyFlags (l : List Area) (fs : List (Bool × Bool)) : (applyFlags l fs).map core = l.map core := by
+  induction l generalizing fs with
+  | nil => cases fs <;> rfl
+  | cons a as ih =>
+    cases fs with
+    | nil => rfl
+    | cons f fs => simp only [applyFlags, List.map_cons, ih]; rfl
+
+theorem map_core_clearStFlags (p : Perm) : (clearStFlags p).areas.map core = p.areas.map core := by
+  simp [clearStFlags, core, List.map_map, Function.comp_def]
+
+theorem agree_startup (s : St) (t : Nat) (h : Agree s) : Agree (startup s t).1 := by
+  unfold startup
+  simp only []
+  (repeat' split) <;> first
+    | exact agree_congr s _ h rfl rfl rfl rfl rfl rfl rfl rfl
+    | exact agree_congr s _ h rfl (map_core_applyFlags _ _) rfl rfl rfl rfl rfl rfl
+    | exact agree_congr s _ h rfl (map_core_clearStFlags _) rfl rfl rfl rfl rfl rfl
+
+theorem agree_invalidateSaved (s : St) (h : Agree s) : Agree (invalidateSaved s) := by
+  unfold invalidateSaved; split
+  · exact agree_congr s _ h rfl rfl rfl rfl rfl rfl rfl rfl
+  · exact h
+
+/-- **the invariant**: from a brand new TPM, after ANY history of NV commands, TSC_PhysicalPresence, Startup of any type,
+    TPM_SaveState, TakeOwnership, other ordinals, power cycles and suspend/resume, the stored permanent state agrees with
+    the one in memory on every area's index, attributes, size, contents and bWriteDefine, on nvLocked, the DIR, the
+    physical-presence enables and the owner: only the two volatile per-area flags (and the write counter after a trial
+    definition) can differ.  So whatever a power cycle brings back is what was there. -/
+theorem agree_step (s : St) (op : Op) (h : Agree s) : Agree (step s op).1 := by
+  have hi := agree_invalidateSaved s h
+  cases op with
+  | startup t => exact agree_startup s t h
+  | tscPP v => exact agree_tscPP _ v hi
+  | define tag hw idx attrs size lr lw => exact agree_nvDefine _ tag hw idx attrs size lr lw hi
+  | write tag loc hw idx off d => exact agree_nvWrite _ tag loc hw idx off d hi
+  | read tag loc hw idx off n => exact agree_nvRead _ tag loc hw idx off n hi
+  | writeAuth ok loc hw idx off d => exact agree_nvWriteAuth _ ok loc hw idx off d hi
+  | readAuth ok loc hw idx off n => exact agree_nvReadAuth _ ok loc hw idx off n hi
+  | takeOwnership => exact agree_store _
+  | stored => exact agree_store _
+  | saveState =>
+    show Agree (saveState (invalidateSaved s)).1
+    unfold saveState
+    simp only []
+    split
+    · exact hi
+    · exact agree_congr _ _ hi rfl rfl rfl rfl rfl rfl rfl rfl
+  | getPub idx =>
+    show Agree (step s (.getPub idx)).1
+    simp only [step]
+    (repeat' split) <;> exact hi
+  | other => exact hi
+  | powerCycle => exact agree_of_eq _ rfl
+  | resume => exact agree_of_eq _ rfl
+
+theorem agree_run (ops : List Op) (s : St) (h : Agree s) : Agree (run s ops) := by
+  induction ops generalizing s with
+  | nil => exact h
+  | cons op ops ih => exact ih _ (agree_step s op h)
+
+/-! ### restarts -/
+
+/-- a power cycle followed by TPM_Startup(ST_CLEAR): every area comes back with its index, attributes, size, contents
+    and bWriteDefine, with bReadSTClear and bWriteSTClear FALSE; nvLocked comes back; bGlobalLock, the command-asserted
+    physical presence and its lock are gone -/
+theorem powercycle_startup_clear (s : St) (h : Agree s) :
+    let s' := (startup (powerCycle s) TPM_ST_CLEAR).1
+    (∀ i, lookup s'.mem i = (lookup s.mem i).map core) ∧ s'.mem.nvLocked = s.mem.nvLocked ∧ s'.mem.dir = s.mem.dir ∧
+    s'.globalLock = false ∧ s'.pp = false ∧ s'.ppLock = false ∧ s'.postInit = false := by
+  have hst : (startup (powerCycle s) TPM_ST_CLEAR).1 =
+      { (powerCycle s) with mem := clearStFlags s.sto, postInit := false, saved := none, stateSaved := false } := by
+    simp [startup, powerCycle, TPM_ST_CLEAR]
+  simp only [hst]
+  refine ⟨?_, h.2.1.symm, h.2.2.1.symm, rfl, rfl, rfl, trivial⟩
+  intro i
+  have h1 : (clearStFlags s.sto).areas = s.sto.areas.map core := by simp [clearStFlags, core]
+  have e : ∀ l : List Area, (l.map core).find? (·.index == i) = (l.find? (·.index == i)).map core := by
+    intro l; rw [List.find?_map]; rfl
+  show lookup (clearStFlags s.sto) i = _
+  unfold lookup
+  rw [h1, e, ← e s.mem.areas, h.1, e]
+
+/-- **the write-define lock survives a power cycle placed anywhere**, in particular immediately after the size-0 write
+    that set it: after Terminate/MainInit from the stored state and Startup(ST_CLEAR), every NV_WriteValue to the area is
+    still refused -/
+theorem writedefine_lock_survives_powercycle (s : St) (h : Agree s) (idx : Nat) (a : Area)
+    (hl : s.mem.nvLocked = true) (ha : lookup s.mem idx = some a) (h0 : idx ≠ TPM_NV_INDEX0) (hd : idx ≠ TPM_NV_INDEX_DIR)
+    (h1 : has a.attrs TPM_NV_PER_WRITEDEFINE = true) (h2 : a.writeDef = true)
+    (tag : Tag) (loc : Nat) (hw : Bool) (off : Nat) (d : Bytes) :
+    (nvWrite (startup (powerCycle s) TPM_ST_CLEAR).1 tag loc hw idx off d).2.rc ≠ 0 := by
+  have hp := powercycle_startup_clear s h
+  simp only at hp
+  have ha' : lookup (startup (powerCycle s) TPM_ST_CLEAR).1.mem idx = some (core a) := by rw [hp.1 idx, ha]; rfl
+  exact (locked_area_refuses_write _ tag loc hw idx off d (core a) (by rw [hp.2.1]; exact hl) ha' h0 hd
+    (Or.inl ⟨h1, h2⟩)).1
+
+/-- the size-0 write sets both locks, and if it changed bWriteDefine it stored: the stored copy of the area has
+    bWriteDefine TRUE as soon as the command has answered -/
+theorem zero_write_sets_locks (s : St) (tag : Tag) (loc : Nat) (hw : Bool) (idx off : Nat) (h : Agree s)
+    (h0 : idx ≠ TPM_NV_INDEX0) (hd : idx ≠ TPM_NV_INDEX_DIR) (hok : (nvWrite s tag loc hw idx off []).2.rc = 0) :
+    let s' := (nvWrite s tag loc hw idx off []).1
+    ∃ a', lookup s'.mem idx = some a' ∧ a'.writeDef = true ∧ a'.writeSt = true ∧ a'.readSt = false ∧
+      (lookup s'.sto idx).map (·.writeDef) = some true := by
+  have hag := agree_nvWrite s tag loc hw idx off [] h
+  cases ha : lookup s.mem idx with
+  | none =>
+    exfalso; revert hok; unfold nvWrite; simp only [h0, hd, ha, if_false]
+    by_cases hc : checkState s = 0 <;> simp [hc, TPM_BADINDEX]
+  | some a =>
+    have hidx : a.index = idx := lookup_index _ _ _ ha
+    have hrc := nvWrite_rc_area s tag loc hw idx off [] a ha h0 hd
+    rw [hok] at hrc
+    have hc : checkState s = 0 := by
+      by_cases hc : checkState s = 0
+      · exact hc
+      · simp [hc] at hrc; exact absurd hrc.symm hc
+    have hr : writeRefusal s tag loc hw a off 0 = 0 := by simp [hc] at hrc; exact hrc.symm
+    have hmem : (nvWrite s tag loc hw idx off []).1.mem.areas =
+        (setArea s.mem { a with writeSt := true, writeDef := true, readSt := false }).areas := by
+      unfold nvWrite
+      simp only [h0, hd, ha, hc, hr, ne_eq, not_true_eq_false, if_false, List.length_nil, if_true]
+      split <;> simp [store, bump] <;> split <;> rfl
+    have hlk : lookup (nvWrite s tag loc hw idx off []).1.mem idx = some { a with writeSt := true, writeDef := true, readSt := false } := by
+      rw [lookup_areas_congr _ _ hmem, lookup_setArea]
+      simp only [hidx, if_true, ha, Option.map_some]
+    refine ⟨_, hlk, rfl, rfl, rfl, ?_⟩
+    have := lookup_map_core _ _ hag.1 idx
+    rw [hlk] at this
+    cases hs : lookup (nvWrite s tag loc hw idx off []).1.sto idx with
+    | none => rw [hs] at this; simp at this
+    | some b =>
+      rw [hs] at this
+      simp only [Option.map_some, Option.some.injEq] at this ⊢
+      have : (core b).writeDef = true := by rw [← this]; rfl
+      exact this
+
+
+/-! ### the ST_CLEAR-scoped locks -/
+
+/-- **read-stclear and write-stclear locks end at TPM_Startup(ST_CLEAR)**: after it no area carries either flag,
+    whatever the stored permanent state said -/
+theorem startup_clear_ends_stclear_locks (s : St) (hok : (startup s TPM_ST_CLEAR).2.rc = 0) :
+    ∀ a ∈ (startup s TPM_ST_CLEAR).1.mem.areas, a.readSt = false ∧ a.writeSt = false := by
+  revert hok
+  unfold startup
+  simp only []
+  (repeat' split) <;> simp_all [TPM_INVALID_POSTINIT, TPM_FAILEDSELFTEST, clearStFlags]
+
+/-- ... and they do NOT end at a suspend/resume -/
+theorem resume_keeps_flags (s : St) : (resume s).mem = s.mem ∧ (resume s).globalLock = s.globalLock ∧
+    (resume s).pp = s.pp ∧ (resume s).ppLock = s.ppLock := ⟨rfl, rfl, rfl, rfl⟩
+
+/-- TPM_SaveState, power cycle, TPM_Startup(ST_STATE) brings the volatile flags back: bGlobalLock, the command-asserted
+    physical presence and its lock, and every area's bReadSTClear / bWriteSTClear -/
+theorem applyFlags_restores (l m : List Area) (h : l.map core = m.map core) :
+    applyFlags l (m.map fun a => (a.readSt, a.writeSt)) = m := by
+  induction l generalizing m with
+  | nil => cases m with
+    | nil => rfl
+    | cons b bs => simp at h
+  | cons a as ih =>
+    cases m with
+    | nil => simp at h
+    | cons b bs =>
+      simp only [List.map_cons, List.cons.injEq] at h
+      simp only [List.map_cons, applyFlags, ih bs h.2, List.cons.injEq, and_true]
+      have := h.1
+      cases a; cases b; simp_all [core]
+
+theorem savestate_startup_state_restores (s : St) (h : Agree s) (hrun : checkState s = 0) :
+    let s1 := (saveState s).1
+    let s3 := (startup (powerCycle s1) TPM_ST_STATE).1
+    (startup (powerCycle s1) TPM_ST_STATE).2.rc = 0 ∧ s3.mem.areas = s.mem.areas ∧ s3.globalLock = s.globalLock ∧
+    s3.pp = s.pp ∧ s3.ppLock = s.ppLock := by
+  have hlen : s.sto.areas.length = s.mem.areas.length := by
+    have := congrArg List.length h.1; simpa using this.symm
+  have hs1 : (saveState s).1 = { s with stateSaved := true, saved := some (Saved.mk s.globalLock s.pp s.ppLock
+      (s.mem.areas.map fun a => (a.readSt, a.writeSt))) } := by simp [saveState, hrun]
+  simp only [hs1]
+  have hne : ¬ ((s.mem.areas.map fun a => (a.readSt, a.writeSt)).length ≠ s.sto.areas.length) := by simp [hlen]
+  simp only [startup, powerCycle, TPM_ST_STATE, TPM_ST_CLEAR, Bool.not_true, Bool.false_eq_true, if_false,
+    show ¬ (2 = 1) by decide, if_true, hne]
+  refine ⟨trivial, ?_, trivial, trivial, trivial⟩
+  exact applyFlags_restores _ _ h.1.symm
+
+/-! ### bGlobalLock -/
+
+/-- a write of size 0 to index 0 sets bGlobalLock and touches nothing else -/
+theorem index0_write_sets_globallock (s : St) (tag : Tag) (loc : Nat) (hw : Bool) (off : Nat)
+    (hok : (nvWrite s tag loc hw TPM_NV_INDEX0 off []).2.rc = 0) :
+    (nvWrite s tag loc hw TPM_NV_INDEX0 off []).1 = { s with globalLock := true } := by
+  revert hok
+  unfold nvWrite
+  by_cases hc : checkState s = 0
+  · simp only [hc, ne_eq, not_true_eq_false, if_false, if_true, List.length_nil]
+    (repeat' split) <;> simp_all [TPM_AUTHFAIL]
+  · simp [hc]
+
+/-- bGlobalLock ends at the next power cycle (TPM_Init) -/
+theorem powercycle_clears_globallock (s : St) : (powerCycle s).globalLock = false ∧ (powerCycle s).pp = false ∧
+    (powerCycle s).ppLock = false ∧ (powerCycle s).postInit = true := ⟨rfl, rfl, rfl, rfl⟩
+
+/-! ### nvLocked -/
+
+/-- TPM_NV_DefineSpace(TPM_NV_INDEX_LOCK, size 0) without authorization sets nvLocked and stores it at once -/
+theorem define_lock_sets_nvlocked (s : St) (hw : Bool) (attrs lr lw : Nat) (h : Agree s)
+    (hok : (nvDefine s .rqu hw TPM_NV_INDEX_LOCK attrs 0 lr lw).2.rc = 0) :
+    (nvDefine s .rqu hw TPM_NV_INDEX_LOCK attrs 0 lr lw).1.mem.nvLocked = true ∧
+    (nvDefine s .rqu hw TPM_NV_INDEX_LOCK attrs 0 lr lw).1.sto.nvLocked = true := by
+  revert hok
+  unfold nvDefine
+  by_cases hl : (!legalLoc lr || !legalLoc lw) = true
+  · simp [hl, TPM_INVALID_STRUCTURE]
+  simp only [hl, Bool.false_eq_true, if_false]
+  by_cases hc : checkState s = 0
+  · simp only [hc, ne_eq, not_true_eq_false, if_false, Tag.isRqu, decide_true, Bool.and_self, if_true]
+    by_cases hk : s.mem.nvLocked = true
+    · intro _
+      simp only [hk, if_true]
+      exact ⟨trivial, h.2.1 ▸ hk⟩
+    · simp [hk, store]
+  · simp [hc]
+
+
+/-! ### define / delete -/
+
+/-- every way TPM_NV_DefineSpace (other than the nvLocked pseudo definition) can succeed: it deleted the area (size 0), it
+    was a trial, or it created the area; in the first and last case the result is in storage before the command answers -/
+theorem nvDefine_success (s : St) (tag : Tag) (hw : Bool) (idx attrs size lr lw : Nat) (hi : idx ≠ TPM_NV_INDEX_LOCK)
+    (hok : (nvDefine s tag hw idx attrs size lr lw).2.rc = 0) :
+    let s' := (nvDefine s tag hw idx attrs size lr lw).1
+    ((lookup s.mem idx).isSome = true ∧ size = 0 ∧ s'.mem.areas = (remove s.mem idx).areas ∧ s'.sto = s'.mem) ∨
+    (idx = TPM_NV_INDEX_TRIAL ∧ s'.mem.areas = (remove s.mem idx).areas) ∨
+    (size ≠ 0 ∧ s'.mem.areas = (remove s.mem idx).areas ++ [newArea idx attrs size lr lw] ∧ s'.sto = s'.mem) := by
+  revert hok
+  unfold nvDefine
+  by_cases hl : (!legalLoc lr || !legalLoc lw) = true
+  · simp [hl, TPM_INVALID_STRUCTURE]
+  simp only [hl, Bool.false_eq_true, if_false]
+  by_cases hc : checkState s = 0
+  case neg => simp [hc]
+  simp only [hc, ne_eq, not_true_eq_false, if_false, hi, decide_false, Bool.false_and, Bool.false_eq_true]
+  by_cases h1 : defineRefusal1 s tag hw idx size = 0
+  case neg => simp [h1]
+  simp only [h1, not_true_eq_false, if_false]
+  by_cases hdel : ((lookup s.mem idx).isSome && decide (size = 0)) = true
+  · simp only [hdel, if_true]
+    intro _
+    left
+    simp only [Bool.and_eq_true, decide_eq_true_eq] at hdel
+    exact ⟨hdel.1, hdel.2, by simp [store], rfl⟩
+  simp only [hdel, Bool.false_eq_true, if_false]
+  by_cases h2 : defineRefusal2 (remove s.mem idx) idx attrs size lr = 0
+  case neg => simp [h2]
+  simp only [h2, not_true_eq_false, if_false]
+  by_cases ht : idx = TPM_NV_INDEX_TRIAL
+  · simp only [ht, if_true]
+    intro _; right; left
+    refine ⟨trivial, ?_⟩
+    simp only [nvStore]
+    (repeat' split) <;> simp [store] <;> simp_all
+  · simp only [ht, if_false]
+    intro _; right; right
+    have hsz : size ≠ 0 := by
+      have := firstRefusal_eq_zero _ (defineChecks2_nz (remove s.mem idx) idx attrs size lr) h2 (size == 0, TPM_BAD_PARAM_SIZE)
+        (by simp [defineChecks2])
+      simpa using this
+    exact ⟨hsz, by simp [store], rfl⟩
+
+/-- **a definition creates exactly that area**: size bytes of 0xFF, the requested attributes and localities, all three lock
+    flags FALSE — whatever was defined under that index before — and no other index changes -/
+theorem define_creates (s : St) (tag : Tag) (hw : Bool) (idx attrs size lr lw : Nat) (hi : idx ≠ TPM_NV_INDEX_LOCK)
+    (ht : idx ≠ TPM_NV_INDEX_TRIAL) (hsz : size ≠ 0) (hok : (nvDefine s tag hw idx attrs size lr lw).2.rc = 0) :
+    let s' := (nvDefine s tag hw idx attrs size lr lw).1
+    lookup s'.mem idx = some (newArea idx attrs size lr lw) ∧ (∀ j, j ≠ idx → lookup s'.mem j = lookup s.mem j) ∧
+    s'.sto = s'.mem := by
+  rcases nvDefine_success s tag hw idx attrs size lr lw hi hok with ⟨_, h, _⟩ | ⟨h, _⟩ | ⟨_, hm, hst⟩
+  · exact absurd h hsz
+  · exact absurd h ht
+  · have hnone : lookup (remove s.mem idx) (newArea idx attrs size lr lw).index = none := by
+      rw [lookup_remove]; simp [newArea]
+    have key : ∀ j, lookup (nvDefine s tag hw idx attrs size lr lw).1.mem j =
+        if j = idx then some (newArea idx attrs size lr lw) else lookup (remove s.mem idx) j := by
+      intro j
+      rw [lookup_areas_congr _ { remove s.mem idx with areas := (remove s.mem idx).areas ++ [newArea idx attrs size lr lw] } hm,
+        lookup_append_new _ _ _ hnone]
+      rfl
+    refine ⟨by rw [key]; simp, ?_, hst⟩
+    intro j hj
+    rw [key, lookup_remove]; simp [hj]
+
+/-- **a deletion removes exactly that area** (size 0 on a defined index) and is stored at once -/
+theorem define_deletes (s : St) (tag : Tag) (hw : Bool) (idx attrs lr lw : Nat) (hi : idx ≠ TPM_NV_INDEX_LOCK)
+    (ht : idx ≠ TPM_NV_INDEX_TRIAL) (hok : (nvDefine s tag hw idx attrs 0 lr lw).2.rc = 0) :
+    let s' := (nvDefine s tag hw idx attrs 0 lr lw).1
+    lookup s'.mem idx = none ∧ (∀ j, j ≠ idx → lookup s'.mem j = lookup s.mem j) ∧ s'.sto = s'.mem := by
+  rcases nvDefine_success s tag hw idx attrs 0 lr lw hi hok with ⟨_, _, hm, hst⟩ | ⟨h, _⟩ | ⟨h, _⟩
+  · refine ⟨?_, ?_, hst⟩
+    · rw [lookup_areas_congr _ _ hm, lookup_remove]; simp
+    · intro j hj; rw [lookup_areas_congr _ _ hm, lookup_remove]; simp [hj]
+  · exact absurd h ht
+  · exact absurd rfl h
+
+/-- a refused definition of an index that is not defined changes nothing (a refused RE-definition reloads the stored
+    state: see `agree_nvDefine`) -/
+theorem define_refused_new_unchanged (s : St) (tag : Tag) (hw : Bool) (idx attrs size lr lw : Nat)
+    (hnew : lookup s.mem idx = none) (hrc : (nvDefine s tag hw idx attrs size lr lw).2.rc ≠ 0) :
+    (nvDefine s tag hw idx attrs size lr lw).1 = s := by
+  revert hrc
+  unfold nvDefine
+  have hrem : remove s.mem idx = s.mem := remove_of_none _ _ hnew
+  simp only [hnew, Option.isSome_none, Bool.false_and, Bool.false_eq_true, if_false, hrem, nvStore]
+  (repeat' split) <;> simp_all
+
+
+/-! ### well-formedness over histories: every area holds exactly `size` bytes, in memory and in storage -/
+
+def WFp (p : Perm) : Prop := ∀ a ∈ p.areas, a.data.length = a.size
+def WF2 (s : St) : Prop := WFp s.mem ∧ WFp s.sto
+
+theorem wf_of_wf2 (s : St) (h : WF2 s) : WF s := h.1
+
+theorem mem_setFirst (l : List Area) (a x : Area) (h : x ∈ setFirst l a) : x = a ∨ x ∈ l := by
+  induction l with
+  | nil => simp [setFirst] at h
+  | cons b bs ih =>
+    simp only [setFirst] at h
+    split at h
+    · rcases List.mem_cons.mp h with h | h
+      · exact Or.inl h
+      · exact Or.inr (List.mem_cons_of_mem _ h)
+    · rcases List.mem_cons.mp h with h | h
+      · exact Or.inr (by simp [h])
+      · rcases ih h with h | h
+        · exact Or.inl h
+        · exact Or.inr (List.mem_cons_of_mem _ h)
+
+theorem wfp_setArea (p : Perm) (a : Area) (h : WFp p) (ha : a.data.length = a.size) : WFp (setArea p a) := by
+  intro x hx
+  rcases mem_setFirst _ _ _ hx with h1 | h1
+  · rw [h1]; exact ha
+  · exact h x h1
+
+theorem wfp_bump (p : Perm) (tag : Tag) (h : WFp p) : WFp (bump p tag) := by
+  intro x hx; rw [bump_areas] at hx; exact h x hx
+
+theorem wfp_remove (p : Perm) (i : Nat) (h : WFp p) : WFp (remove p i) := by
+  intro x hx; exact h x (List.mem_filter.mp hx).1
+
+theorem wfp_of_areas (p q : Perm) (e : q.areas = p.areas) (h : WFp p) : WFp q := by
+  intro x hx; rw [e] at hx; exact h x hx
+
+theorem wf2_store (s : St) (h : WFp s.mem) : WF2 (store s) := ⟨h, h⟩
+
+theorem wf2_rollback (s : St) (h : WF2 s) : WF2 (rollback s) := by
+  refine ⟨?_, h.2⟩
+  intro x hx
+  simp only [rollback, List.mem_map] at hx
+  obtain ⟨b, hb, rfl⟩ := hx
+  have := h.2 b hb
+  split <;> exact this
+
+theorem wf2_nvStore (s : St) (w : Bool) (rc : Nat) (h : WF2 s) : WF2 (nvStore s w rc) := by
+  unfold nvStore
+  (repeat' split) <;> first | exact h | exact wf2_store _ h.1 | exact wf2_rollback _ h
+
+theorem wf2_mem (s s' : St) (h : WF2 s) (hs : s'.sto = s.sto) (hm : WFp s'.mem) : WF2 s' := ⟨hm, hs ▸ h.2⟩
+
+theorem wf2_nvRead (s : St) (tag : Tag) (loc : Nat) (hw : Bool) (idx off n : Nat) (h : WF2 s) :
+    WF2 (nvRead s tag loc hw idx off n).1 := by
+  have hsto : (nvRead s tag loc hw idx off n).1.sto = s.sto := by
+    unfold nvRead; by_cases hc : checkState s = 0 <;> simp [hc] <;> (repeat' split) <;> rfl
+  refine wf2_mem s _ h hsto ?_
+  rcases nvRead_areas s tag loc hw idx off n with e | ⟨a, ha, e⟩
+  · exact wfp_of_areas _ _ e h.1
+  · exact wfp_of_areas _ _ e (wfp_setArea _ _ h.1 (h.1 a (lookup_mem _ _ _ ha)))
+
+theorem wf2_nvWrite (s : St) (tag : Tag) (loc : Nat) (hw : Bool) (idx off : Nat) (d : Bytes) (h : WF2 s) :
+    WF2 (nvWrite s tag loc hw idx off d).1 := by
+  unfold nvWrite
+  by_cases hc : checkState s = 0
+  case neg => simpa [hc] using h
+  simp only [hc, ne_eq, not_true_eq_false, if_false]
+  by_cases h0 : idx = TPM_NV_INDEX0
+  · simp only [h0, if_true]; (repeat' split) <;> exact h
+  simp only [h0, if_false]
+  by_cases hd : idx = TPM_NV_INDEX_DIR
+  · simp only [hd, if_true]; (repeat' split) <;> first | exact h | exact wf2_store _ (wfp_bump _ _ (wfp_of_areas s.mem _ rfl h.1))
+  simp only [hd, if_false]
+  cases ha : lookup s.mem idx with
+  | none => exact h
+  | some a =>
+    have hlen := h.1 a (lookup_mem _ _ _ ha)
+    simp only []
+    by_cases hr : writeRefusal s tag loc hw a off d.length = 0
+    case neg => simpa [hr] using h
+    simp only [hr, not_true_eq_false, if_false]
+    by_cases hl : d.length = 0
+    · simp only [hl, if_true]
+      split
+      · exact wf2_mem s _ h rfl (wfp_setArea _ _ h.1 hlen)
+      · exact wf2_store _ (wfp_bump _ _ (wfp_setArea _ _ h.1 hlen))
+    · simp only [hl, if_false]
+      have hall := firstRefusal_eq_zero _ (writeChecks_nz s tag loc hw a off d.length) hr
+      have hsp := hall (d.length != 0 && (decide (off + d.length ≥ M32) || decide (off + d.length > a.size)), TPM_NOSPACE)
+        (by simp [writeChecks])
+      have hbound : off + d.length ≤ a.size := by
+        simp only [Bool.and_eq_false_imp, bne_iff_ne, ne_eq, Bool.or_eq_false_iff, decide_eq_false_iff_not] at hsp
+        have := (hsp hl).2; omega
+      split
+      · exact wf2_mem s _ h rfl (wfp_setArea _ _ h.1 hlen)
+      · exact wf2_store _ (wfp_bump _ _ (wfp_setArea _ _ h.1 (by show (patch a.data off d).length = a.size; rw [patch_length _ _ _ (by omega)]; exact hlen)))
+
+
+theorem wf2_nvWriteAuth (s : St) (ok : Bool) (loc : Nat) (hw : Bool) (idx off : Nat) (d : Bytes) (h : WF2 s) :
+    WF2 (nvWriteAuth s ok loc hw idx off d).1 := by
+  unfold nvWriteAuth
+  by_cases hc : checkStateOwner s = 0
+  case neg => simpa [hc] using h
+  simp only [hc, ne_eq, not_true_eq_false, if_false]
+  cases ha : lookup s.mem idx with
+  | none => exact h
+  | some a =>
+    have hlen := h.1 a (lookup_mem _ _ _ ha)
+    simp only []
+    by_cases hr : writeAuthRefusal s ok loc hw a off d.length = 0
+    case neg => simpa [hr] using h
+    simp only [hr, not_true_eq_false, if_false]
+    by_cases hl : d.length = 0
+    · simp only [hl, if_true]
+      split
+      · exact wf2_mem s _ h rfl (wfp_setArea _ _ h.1 hlen)
+      · exact wf2_store _ (wfp_setArea _ _ h.1 hlen)
+    · simp only [hl, if_false]
+      have hall := firstRefusal_eq_zero _ (writeAuthChecks_nz s ok loc hw a off d.length) hr
+      have hsp := hall (d.length != 0 && (decide (off + d.length ≥ M32) || decide (off + d.length > a.size)), TPM_NOSPACE)
+        (by simp [writeAuthChecks])
+      have hbound : off + d.length ≤ a.size := by
+        simp only [Bool.and_eq_false_imp, bne_iff_ne, ne_eq, Bool.or_eq_false_iff, decide_eq_false_iff_not] at hsp
+        have := (hsp hl).2; omega
+      split
+      · exact wf2_mem s _ h rfl (wfp_setArea _ _ h.1 hlen)
+      · exact wf2_store _ (wfp_setArea _ _ h.1 (by show (patch a.data off d).length = a.size; rw [patch_length _ _ _ (by omega)]; exact hlen))
+
+theorem wf2_nvReadAuth (s : St) (ok : Bool) (loc : Nat) (hw : Bool) (idx off n : Nat) (h : WF2 s) :
+    WF2 (nvReadAuth s ok loc hw idx off n).1 := by
+  unfold nvReadAuth
+  by_cases hc : checkStateOwner s = 0
+  case neg => simpa [hc] using h
+  simp only [hc, ne_eq, not_true_eq_false, if_false]
+  cases ha : lookup s.mem idx with
+  | none => exact h
+  | some a =>
+    simp only []
+    (repeat' split) <;> first | exact h | skip
+    exact wf2_mem s _ h rfl (wfp_setArea _ _ h.1 (h.1 a (lookup_mem _ _ _ ha)))
+
+theorem wf2_tscPP (s : St) (v : Nat) (h : WF2 s) : WF2 (tscPP s v).1 := by
+  unfold tscPP
+  by_cases hc : checkState s = 0
+  case neg => simpa [hc] using h
+  simp only [hc, ne_eq, not_true_eq_false, if_false]
+  (repeat' split) <;> first | exact h | exact wf2_store _ (wfp_of_areas s.mem _ rfl h.1) | exact wf2_mem s _ h rfl h.1
+
+theorem wfp_newArea (p : Perm) (idx attrs size lr lw : Nat) (h : WFp p) :
+    WFp { p with areas := p.areas ++ [newArea idx attrs size lr lw] } := by
+  intro x hx
+  rcases List.mem_append.mp hx with h1 | h1
+  · exact h x h1
+  · simp only [List.mem_singleton] at h1; rw [h1]; simp [newArea]
+
+theorem wf2_nvDefine (s : St) (tag : Tag) (hw : Bool) (idx attrs size lr lw : Nat) (h : WF2 s) :
+    WF2 (nvDefine s tag hw idx attrs size lr lw).1 := by
+  unfold nvDefine
+  by_cases hl : (!legalLoc lr || !legalLoc lw) = true
+  · simpa [hl] using h
+  simp only [hl, Bool.false_eq_true, if_false]
+  by_cases hc : checkState s = 0
+  case neg => simpa [hc] using h
+  simp only [hc, ne_eq, not_true_eq_false, if_false]
+  have hrem : WFp (remove s.mem idx) := wfp_remove _ _ h.1
+  have h1' : WF2 { s with mem := remove s.mem idx } := ⟨hrem, h.2⟩
+  (repeat' split) <;> first
+    | exact h
+    | exact wf2_store _ (wfp_of_areas s.mem _ rfl h.1)
+    | exact wf2_store _ (wfp_bump _ _ hrem)
+    | exact wf2_nvStore _ _ _ h1'
+    | exact wf2_nvStore _ _ _ ⟨wfp_bump _ _ hrem, h.2⟩
+    | exact wf2_store _ (wfp_bump _ _ (wfp_newArea _ _ _ _ _ _ hrem))
+
+theorem wf2_startup (s : St) (t : Nat) (h : WF2 s) : WF2 (startup s t).1 := by
+  have hclr : WFp (clearStFlags s.mem) := by
+    intro x hx
+    simp only [clearStFlags, List.mem_map] at hx
+    obtain ⟨b, hb, rfl⟩ := hx
+    exact h.1 b hb
+  have happ : ∀ fs, WFp { s.mem with areas := applyFlags s.mem.areas fs } := by
+    intro fs x hx
+    have : ∀ (l : List Area) (fs : List (Bool × Bool)), (∀ a ∈ l, a.data.length = a.size) →
+        ∀ x ∈ applyFlags l fs, x.data.length = x.size := by
+      intro l
+      induction l with
+      | nil => intro fs _ x hx; cases fs <;> simp [applyFlags] at hx
+      | cons a as ih =>
+        intro fs hl x hx
+        cases fs with
+        | nil => exact hl x hx
+        | cons f fs =>
+          simp only [applyFlags, List.mem_cons] at hx
+          rcases hx with hx | hx
+          · rw [hx]; exact hl a (by simp)
+          · exact ih fs (fun b hb => hl b (by simp [hb])) x hx
+    exact this _ _ h.1 x hx
+  unfold startup
+  simp only []
+  (repeat' split) <;> first
+    | exact wf2_mem s _ h rfl h.1
+    | exact wf2_mem s _ h rfl hclr
+    | exact wf2_mem s _ h rfl (happ _)
+
+theorem wf2_invalidateSaved (s : St) (h : WF2 s) : WF2 (invalidateSaved s) := by
+  unfold invalidateSaved; split
+  · exact wf2_mem s _ h rfl h.1
+  · exact h
+
+/-- every area holds exactly `size` bytes, in memory and in storage, after any history from a brand new TPM -/
+theorem wf2_step (s : St) (op : Op) (h : WF2 s) : WF2 (step s op).1 := by
+  have hi := wf2_invalidateSaved s h
+  cases op with
+  | startup t => exact wf2_startup s t h
+  | tscPP v => exact wf2_tscPP _ v hi
+  | define tag hw idx attrs size lr lw => exact wf2_nvDefine _ tag hw idx attrs size lr lw hi
+  | write tag loc hw idx off d => exact wf2_nvWrite _ tag loc hw idx off d hi
+  | read tag loc hw idx off n => exact wf2_nvRead _ tag loc hw idx off n hi
+  | writeAuth ok loc hw idx off d => exact wf2_nvWriteAuth _ ok loc hw idx off d hi
+  | readAuth ok loc hw idx off n => exact wf2_nvReadAuth _ ok loc hw idx off n hi
+  | takeOwnership => exact wf2_store _ (wfp_of_areas _ _ rfl hi.1)
+  | stored => exact wf2_store _ h.1
+  | saveState =>
+    show WF2 (saveState (invalidateSaved s)).1
+    unfold saveState
+    simp only []
+    split
+    · exact hi
+    · exact wf2_mem _ _ hi rfl hi.1
+  | getPub idx =>
+    show WF2 (step s (.getPub idx)).1
+    simp only [step]
+    (repeat' split) <;> exact hi
+  | other => exact hi
+  | powerCycle => exact ⟨h.2, h.2⟩
+  | resume => exact ⟨h.1, h.1⟩
+
+theorem wf2_fresh : WF2 fresh := by
+  constructor <;> intro a ha <;> simp [fresh] at ha
+
+/-- **read-after-write over whole histories**: in any state reached from a brand new TPM by any sequence of operations,
+    a successful write followed by a successful read of the same range returns the bytes written -/
+theorem read_after_write_reachable (ops : List Op) (tag tag' : Tag) (loc loc' : Nat) (hw hw' : Bool) (idx off : Nat) (d : Bytes)
+    (hne : d.length ≠ 0) (h0 : idx ≠ TPM_NV_INDEX0) (hd : idx ≠ TPM_NV_INDEX_DIR) :
+    let s := run fresh ops
+    (nvWrite s tag loc hw idx off d).2.rc = 0 →
+    (nvRead (nvWrite s tag loc hw idx off d).1 tag' loc' hw' idx off d.length).2.rc = 0 →
+    (nvRead (nvWrite s tag loc hw idx off d).1 tag' loc' hw' idx off d.length).2.out = be32 d.length ++ d := by
+  have hwf : ∀ (ops : List Op) (s : St), WF2 s → WF2 (run s ops) := by
+    intro ops
+    induction ops with
+    | nil => intro s h; exact h
+    | cons op ops ih => intro s h; exact ih _ (wf2_step s op h)
+  intro s h1 h2
+  exact read_after_write s tag tag' loc loc' hw hw' idx off d (wf_of_wf2 _ (hwf ops fresh wf2_fresh)) hne h0 hd h1 h2
+
+end NV
+end TpmVerif.Props.C20
+
+/-!
+  ## Monotonic counters (TPM_CreateCounter / IncrementCounter / ReadCounter / ReleaseCounter / ReleaseCounterOwner)
+
+  Theorems about `Model.Tpm12.Counter` (follows tpm12/tpm_counter.c).
+-/
+namespace TpmVerif.Props.C20
+namespace Ctr
+open TpmVerif TpmVerif.Gen.Tpm12 TpmVerif.Model.Tpm12.Counter
+
+theorem foldl_max_ge (l : List Slot) (m : Nat) : m ≤ l.foldl (fun m sl => max m sl.count) m := by
+  induction l generalizing m with
+  | nil => exact Nat.le_refl _
+  | cons a as ih => exact Nat.le_trans (Nat.le_max_left _ _) (ih _)
+
+theorem foldl_max_mono (l : List Slot) (m n : Nat) (h : m ≤ n) :
+    l.foldl (fun m sl => max m sl.count) m ≤ l.foldl (fun m sl => max m sl.count) n := by
+  induction l generalizing m n with
+  | nil => exact h
+  | cons a as ih => exact ih _ _ (by simp only [Nat.max_le]; omega)
+
+/-- every slot's count, used or released, is at most the TPM-wide maximum -/
+theorem le_maxCount (l : List Slot) (i : Nat) : (l.getD i {}).count ≤ maxCount l := by
+  unfold maxCount
+  induction l generalizing i with
+  | nil => simp
+  | cons a as ih =>
+    cases i with
+    | zero =>
+      simp only [List.getD_cons_zero, List.foldl_cons]
+      exact Nat.le_trans (Nat.le_max_right 0 a.count) (foldl_max_ge _ _)
+    | succ k =>
+      simp only [List.getD_cons_succ, List.foldl_cons]
+      exact Nat.le_trans (ih k) (foldl_max_mono _ _ _ (Nat.zero_le _))
+
+/-- raising one slot never lowers the maximum -/
+theorem maxCount_set_ge (l : List Slot) (i : Nat) (sl : Slot) (h : (l.getD i {}).count ≤ sl.count) :
+    maxCount l ≤ maxCount (l.set i sl) := by
+  unfold maxCount
+  suffices ∀ m n, m ≤ n → l.foldl (fun m s => max m s.count) m ≤ (l.set i sl).foldl (fun m s => max m s.count) n from this 0 0 (Nat.le_refl _)
+  induction l generalizing i with
+  | nil => intro m n hmn; simpa using hmn
+  | cons a as ih =>
+    intro m n hmn
+    cases i with
+    | zero =>
+      simp only [List.set_cons_zero, List.foldl_cons]
+      simp only [List.getD_cons_zero] at h
+      exact foldl_max_mono _ _ _ (by simp only [Nat.max_le]; omega)
+    | succ k =>
+      simp only [List.set_cons_succ, List.foldl_cons]
+      simp only [List.getD_cons_succ] at h
+      exact ih k h _ _ (by simp only [Nat.max_le]; omega)
+
+theorem getD_set (l : List Slot) (i j : Nat) (sl : Slot) :
+    (l.set i sl).getD j {} = if i = j ∧ i < l.length then sl else l.getD j {} := by
+  simp only [List.getD_eq_getElem?_getD, List.getElem?_set]
+  by_cases h : i = j
+  · subst h
+    by_cases hl : i < l.length
+    · simp [hl]
+    · simp [hl, List.getElem?_eq_none (Nat.le_of_not_lt hl)]
+  · simp [h]
+
+def WF (s : St) : Prop := s.slots.length = TPM_MIN_COUNTERS
+
+
+theorem release_slots_count (s : St) (id j : Nat) : ((release s id).slots.getD j {}).count = (s.slots.getD j {}).count := by
+  unfold release
+  simp only [getD_set]
+  split
+  · rename_i h; rw [← h.1]
+  · rfl
+
+/-- **counters only increase**: no operation whatsoever (create, increment, read, release by either authorization, wrong
+    HMACs, Startup of any type, TPM_SaveState, power cycle, suspend/resume) lowers the count held in any slot, used or released -/
+theorem count_never_decreases (s : St) (op : Op) (j : Nat) : countOf s j ≤ countOf (step s op).1 j := by
+  unfold countOf
+  cases op <;> simp only [step]
+  case create ok =>
+    (repeat' split) <;> try exact Nat.le_refl _
+    rename_i i hi
+    simp only [getD_set]
+    split
+    · rename_i h; rw [← h.1]; exact Nat.le_trans (le_maxCount _ _) (Nat.le_succ _)
+    · exact Nat.le_refl _
+  case increment id ok =>
+    (repeat' split) <;> try exact Nat.le_refl _
+    all_goals
+      simp only [getD_set]
+      split
+      · rename_i h; rw [← h.1]; exact Nat.le_succ _
+      · exact Nat.le_refl _
+  case read id => (repeat' split) <;> exact Nat.le_refl _
+  case release id ok => (repeat' split) <;> first | exact Nat.le_refl _ | exact Nat.le_of_eq (release_slots_count _ _ _).symm
+  case releaseOwner id ok => (repeat' split) <;> first | exact Nat.le_refl _ | exact Nat.le_of_eq (release_slots_count _ _ _).symm
+  case takeOwnership => exact Nat.le_refl _
+  case startup t => (repeat' split) <;> exact Nat.le_refl _
+  case saveState => exact Nat.le_refl _
+  case powerCycle => exact Nat.le_refl _
+  case resume => exact Nat.le_refl _
+
+theorem count_never_decreases_run (ops : List Op) (s : St) (j : Nat) : countOf s j ≤ countOf (run s ops) j := by
+  induction ops generalizing s with
+  | nil => exact Nat.le_refl _
+  | cons op ops ih => exact Nat.le_trans (count_never_decreases s op j) (ih _)
+
+/-- **a new counter starts above everything the TPM has ever counted**: its first value is the maximum over all slots —
+    including released ones — plus one -/
+theorem create_above_all (s : St) (hok : (step s (.create true)).2.rc = 0) :
+    (step s (.create true)).2.value = maxCount s.slots + 1 ∧ ∀ j, countOf s j < (step s (.create true)).2.value := by
+  revert hok
+  simp only [step]
+  (repeat' split) <;> simp_all [TPM_AUTHFAIL, TPM_RESOURCES, nextCount]
+  intro j; exact Nat.lt_succ_of_le (le_maxCount _ _)
+
+/-- TPM_IncrementCounter adds exactly one, returns the new value and makes the counter the active one -/
+theorem increment_adds_one (s : St) (id : Nat) (hok : (step s (.increment id true)).2.rc = 0) :
+    (step s (.increment id true)).2.value = countOf s id + 1 ∧ (step s (.increment id true)).1.active = .id id ∧
+    (step s (.increment id true)).2.stored = true := by
+  revert hok
+  simp only [step]
+  (repeat' split) <;> simp_all [TPM_AUTHFAIL, TPM_BAD_COUNTER]
+
+/-- **one counter per boot**: once a counter has been incremented, incrementing any other counter is refused until the
+    next power cycle, whatever the authorization -/
+theorem other_counter_refused (s : St) (id j : Nat) (ok : Bool) (ha : s.active = .id id) (hj : j ≠ id) :
+    (step s (.increment j ok)).2.rc ≠ 0 ∧ (step s (.increment j ok)).1 = s := by
+  simp only [step, ha]
+  have : decide (id = j) = false := by simp; exact fun h => hj h.symm
+  (repeat' split) <;> simp_all [TPM_BAD_COUNTER, TPM_FAILEDSELFTEST, TPM_INVALID_POSTINIT, TPM_NOSRK, checkState]
+
+/-- a wrong HMAC changes nothing, for every counter command -/
+theorem bad_hmac_no_change (s : St) (id : Nat) :
+    (step s (.create false)).1 = s ∧ (step s (.increment id false)).1 = s ∧ (step s (.release id false)).1 = s ∧
+    (step s (.releaseOwner id false)).1 = s := by
+  refine ⟨?_, ?_, ?_, ?_⟩ <;> simp only [step] <;> (repeat' split) <;> simp_all
+
+/-- **counters survive restarts**: a power cycle, a suspend/resume, TPM_SaveState and Startup of any type leave every slot as
+    it is (the table is permanent data and every change is stored by the command that makes it) -/
+theorem restart_keeps_counters (s : St) (t : Nat) :
+    (step s .powerCycle).1.slots = s.slots ∧ (step s .resume).1.slots = s.slots ∧ (step s .saveState).1.slots = s.slots ∧
+    (step s (.startup t)).1.slots = s.slots := by
+  refine ⟨rfl, rfl, rfl, ?_⟩
+  simp only [step]; (repeat' split) <;> rfl
+
+/-- every command that changes the table hands the permanent state to storage -/
+theorem change_is_stored (s : St) (op : Op) (h : (step s op).1.slots ≠ s.slots) : (step s op).2.stored = true := by
+  revert h
+  cases op <;> simp only [step] <;> (repeat' split) <;> simp_all
+
+/-- TPM_ReadCounter returns the count of a created counter and refuses every other id -/
+theorem read_returns_count (s : St) (id : Nat) (hok : (step s (.read id)).2.rc = 0) :
+    (step s (.read id)).2.value = countOf s id ∧ validId s id = true := by
+  revert hok
+  simp only [step]
+  (repeat' split) <;> simp_all [TPM_BAD_COUNTER]
+
+end Ctr
 end TpmVerif.Props.C20
